@@ -430,9 +430,14 @@ func CoerceFakeFloats(x interface{}) interface{} {
 			x = int(v)
 		}
 	case map[string]interface{}:
+		// Build a new map: the given one can be shared (a
+		// substituted binding such as the event of a running
+		// rule) and must not be written to.
+		m := make(map[string]interface{}, len(v))
 		for p, val := range v {
-			v[p] = CoerceFakeFloats(val)
+			m[p] = CoerceFakeFloats(val)
 		}
+		x = m
 	}
 	return x
 }
